@@ -1,0 +1,17 @@
+//go:build verif
+
+package extract
+
+// Contracts for property C18 (extract emits faithful wrappers). Checked by /verif/govc. Comments only.
+
+// fixConst: an untyped constant is re-materialised from its *exact* textual value with the token of
+// its kind; the two helper imports are recorded; other kinds keep the qualified name.
+//@ func fixConst(name, val, imports) (r)
+//@   props C18
+//@   opt safety = off
+//@   requires [assume] imports != nil
+//@   ensures string-exact: val.Kind() == constant.String ==> r == fmt.Sprintf("constant.MakeFromLiteral(%q, token.%s, 0)", val.ExactString(), "STRING")
+//@   ensures int-exact: val.Kind() == constant.Int ==> r == fmt.Sprintf("constant.MakeFromLiteral(%q, token.%s, 0)", val.ExactString(), "INT")
+//@   ensures imports-recorded: (val.Kind() == constant.String || val.Kind() == constant.Int || val.Kind() == constant.Float) ==> imports["go/constant"] && imports["go/token"]
+//@   ensures others-by-name: !(val.Kind() == constant.String || val.Kind() == constant.Int || val.Kind() == constant.Float) ==> r == name
+//@   canary val.Kind() == constant.String ==> r == fmt.Sprintf("constant.MakeFromLiteral(%q, token.%s, 0)", val.String(), "STRING")
